@@ -535,6 +535,27 @@ def build_T19t(tree):
         raise Unsupported('count checks of mapping lists / plane positions changed')
     map_axis = int(ast.unparse(cm[0].test)[-2])
     pos_axis = int(ast.unparse(cp[0].test)[-2])
+    # Rows / Columns range (VR US, not 0): `if not (LO <= pixel_array.shape[A] <= HI and LO <= pixel_array.shape[B] <= HI): raise ValueError`
+    rng = [s for s in src if isinstance(s.test, ast.UnaryOp) and isinstance(s.test.op, ast.Not) and 'pixel_array.shape' in ast.unparse(s.test)
+           and '<=' in ast.unparse(s.test)]
+    if len(rng) != 1 or not isinstance(rng[0].body[0], ast.Raise) or rng[0].orelse:
+        raise Unsupported('range check of Rows / Columns (`if not (1 <= pixel_array.shape[1] <= 65535 and ..): raise`) not found')
+    bo = rng[0].test.operand
+    if not (isinstance(bo, ast.BoolOp) and isinstance(bo.op, ast.And)):
+        raise Unsupported('range check of Rows / Columns is not a conjunction')
+    bounds = []
+    for cmp_ in bo.values:
+        m2 = re.fullmatch(r'(\d+) <= pixel_array\.shape\[(\d)\] <= (\d+)', ast.unparse(cmp_))
+        if not m2:
+            raise Unsupported('range check of Rows / Columns: conjunct changed: ' + ast.unparse(cmp_))
+        bounds.append((int(m2.group(1)), int(m2.group(2)), int(m2.group(3))))
+    if len({(b[0], b[2]) for b in bounds}) != 1:
+        raise Unsupported('range check of Rows / Columns: the axes have different bounds')
+    # ... and it must stand before the attributes are written from the array's shape
+    rows_asg = [s for s in ast.walk(init) if isinstance(s, ast.Assign) and ast.unparse(s.targets[0]) == 'self.Rows']
+    if len(rows_asg) != 1 or rows_asg[0].lineno < rng[0].lineno:
+        raise Unsupported('range check of Rows / Columns no longer precedes `self.Rows = ..`')
+    shape_lo, shape_hi, shape_axes = bounds[0][0], bounds[0][2], sorted(b[1] for b in bounds)
     # dimension index
     dpv = [s for s in ast.walk(init) if isinstance(s, ast.Assign) and ast.unparse(s.targets[0]) == 'dimension_position_values']
     want_dpv = '[np.unique(plane_position_values[:, index], axis=0) for index in range(plane_position_values.shape[1])]'
@@ -565,12 +586,18 @@ def pmMappingCountAxis : Nat := {map_axis}
 /-- `len(plane_positions) != pixel_array.shape[K]` -/
 def pmPositionCountAxis : Nat := {pos_axis}
 
+/-- `if not (LO <= pixel_array.shape[A] <= HI and ..): raise ValueError`: the axes (of the array normalised to 4-D) whose length must
+    be describable by Rows / Columns, and the bounds -/
+def pmShapeRangeAxes : List Nat := [{', '.join(map(str, shape_axes))}]
+def pmShapeRangeLo : Nat := {shape_lo}
+def pmShapeRangeHi : Nat := {shape_hi}
+
 /-- Dimension Index Value: `np.where(<row of the sorted distinct values equals the plane's value as a whole>)[0][N] + B` -- which match -/
 def pmDimIndexMatch : Nat := {nth}
 
 /-- ... and the base `B` added to its 0-based position -/
 def pmDimIndexBase : Nat := {base}'''
-    return text, span_sha([flat, cm[0], cp[0], dpv[0], div[0]])
+    return text, span_sha([flat, cm[0], cp[0], rng[0], dpv[0], div[0]])
 
 
 TARGETS['T19t'] = {'file': 'pm/sop.py', 'build': build_T19t}
